@@ -1255,17 +1255,36 @@ def iter_models(ctx, lens, consistent=False):
         mm = re.match(r"^it#(\d+)\|(.*)$", desc)
         return [(int(mm.group(1)), mm.group(2))] if mm else []
 
+    def m_is_empty(ex, callee, args, pc, events):
+        name = coll(what_of(ex, args[0]))
+        known = ex.heap.setdefault("$lens", {})
+        minlen = ex.heap.setdefault("$minlen", {})
+        if name in known:
+            return [(pc, events, BoolV("true" if known[name] == 0 else "false", known[name] == 0))]
+        if minlen.get(name, 0) > 0:
+            return [(pc, events, BoolV("false", False))]
+        saved = copy_heap(ex)
+        h1 = copy_heap(ex)
+        h1["$lens"][name] = 0
+        h2 = copy_heap(ex)
+        h2["$minlen"][name] = 1
+        ex.heap = saved
+        return [(pc, events + [("is-empty", name, True)], BoolV("true", True), h1), (pc, events + [("is-empty", name, False)], BoolV("false", False), h2)]
+
     def m_next(ex, callee, args, pc, events):
         desc = what_of(ex, args[0])
         can_some, can_none = True, True
         if consistent:
             known = ex.heap.setdefault("$lens", {})
+            minlen = ex.heap.setdefault("$minlen", {})
             lv = leaves(desc)
             st = [(ex.heap["$iters"][iid], known.get(under)) for iid, under in lv]
             if any(n is not None and pos >= n for pos, n in st):
                 can_some = False            # some component is exhausted
             elif st and all(n is not None for _pos, n in st):
                 can_none = False            # every component has elements left
+            elif len(lv) == 1 and ex.heap["$iters"][lv[0][0]] < minlen.get(lv[0][1], 0):
+                can_none = False            # known to be non-empty
         saved = copy_heap(ex)
         res = []
         if can_some:
@@ -1330,7 +1349,7 @@ def iter_models(ctx, lens, consistent=False):
         return [(pc, events, EnumV(variant=1, fields=[OpaqueV("io::Error")]))]
 
     try_models = [(r"<Result<.*> as Try>::branch$", m_branch), (r"<Result<.*> as FromResidual<.*>>::from_residual$", m_from_residual)]
-    models = try_models + ([(r"Vec::<.*>::push$", m_vec_push)] if consistent else []) + [
+    models = try_models + ([(r"Vec::<.*>::push$", m_vec_push), (r"Vec::<.*>::is_empty$|impl \[.*\]>::is_empty$", m_is_empty)] if consistent else []) + [
         (r"as Deref(Mut)?>::deref(_mut)?$", m_deref),
         (r"impl \[.*\]>::iter(_mut)?$", m_iter), (r"as IntoIterator>::into_iter$", m_into_iter),
         (r"as Iterator>::zip::<", m_zip), (r"as Iterator>::enumerate$", m_enumerate), (r"as Iterator>::next$", m_next),
@@ -1610,7 +1629,7 @@ def c12_join_group(mir, ctx):
         if vname not in jv:
             raise EncodingError("Join has no variant %s" % vname)
         lens = {}
-        it_models, what_of, coll = iter_models(ctx, lens)
+        it_models, what_of, coll = iter_models(ctx, lens, consistent=True)
 
         def m_cond(ex, callee, args, pc, events):
             b = ctx.fresh_bool("join_condition")
@@ -1638,7 +1657,15 @@ def c12_join_group(mir, ctx):
         def m_same(ex, callee, args, pc, events):
             return [(pc, events, OpaqueV(coll(what_of(ex, args[0]))))]
 
+        side_n = [0]
+
+        def m_sides(ex, callee, args, pc, events):
+            side_n[0] += 1
+            k = sum(1 for e in events if e[0] == "side") + 1
+            return [(pc, events + [("side", "side%d-rows" % k)], TupleV([OpaqueV("side%d-table" % k), OpaqueV("side%d-rows" % k)]))]
+
         models = [
+            (r"Rows::<'_>::into_table_and_values$|Rows::into_table_and_values$", m_sides),
             (r"Expr::column_names$", m_names), (r"Table::has_column$", m_has), (r"Expr::eval$", m_eval), (r"Row::new$", m_row),
             (r"<Rc<Table> as Clone>::clone$", m_same),
             (r"Value::to_bool$", m_cond), (r"Vec::<Vec<ValueRef>>::push$", m_push),
@@ -1685,15 +1712,26 @@ def c12_join_group(mir, ctx):
                 continue
             evs = o.events
             # the two row collections: results of the two into_table_and_values calls, in order
-            srcs = []
-            for e in evs:
-                if e[0] == "elem":
-                    base = re.sub(r"\[\d+\]$", "", e[1])
-                    if "into_table_and_values" in base and base not in srcs and not re.search(r"\]\[", e[1]):
-                        srcs.append(base)
-            if len(srcs) < 2:
-                continue        # one side empty on this path: no pair was visited
-            left, right = srcs[0], srcs[1]
+            sides = [e[1] for e in evs if e[0] == "side"]
+            if len(sides) != 2:
+                raise EncodingError("join kernel: %d row sources on an Ok path" % len(sides))
+            left, right = sides
+            klens = o.heap.get("$lens", {})
+            n1, n2 = klens.get(left), klens.get(right)
+            nonempty1 = o.heap.get("$minlen", {}).get(left, 0) > 0 or (n1 or 0) > 0
+            # completeness: an Ok result must have visited every left row (and for each every right row), unless a side is known to be empty
+            complete = True
+            if n1 is None and not (vname == "Inner" and n2 == 0):
+                complete = False
+            if n1 and n2 is None:
+                complete = False
+            if not complete:
+                g.queries.append(Query("%s_incomplete_%d" % (vname, k), o.pc, "unsat",
+                                       note="%s join returns Ok without having gone through all of its %s rows (left rows known: %s%s, right rows known: %s)"
+                                            % (vname, "left" if n1 is None else "right", n1, " (non-empty)" if nonempty1 and n1 is None else "", n2)))
+            if n1 == 0 or (n1 is None and not any(e[0] == "elem" for e in evs)):
+                g.witness.append(Query("w_%s_%d" % (vname, k), o.pc, "sat"))
+                continue
             total += 1
             ok, why, queries = True, "", []
             cur_i = cur_j = None
